@@ -26,7 +26,11 @@ Definition a_empty : astate := mkA (fun _ _ => None) (fun _ => None).
 
 (** the backend outcome: failure with an errno, or success with the reported
     file type [k], fenced flag [fz] of the new binding and a size [n] *)
-Inductive boutcome := BFail (e : N) | BOk (k : N) (fz : bool) (n : N).
+Inductive boutcome :=
+| BFail (e : N)                          (* a backend call returned an error value *)
+| BOk (k : N) (fz : bool) (n : N)
+| BPanicEarly                            (* a panic before any binding changed: EFAULT, nothing but fencing changes (Tclunk/Tremove keep their fid) *)
+| BPanicLate (k : N) (fz : bool) (n : N). (* a panic while releasing references after the bindings changed: EFAULT, bindings as after success *)
 
 Definition bind_fid (a : astate) (c f : N) (v : option fview) : astate :=
   mkA (fun c' f' => if (c' =? c) && (f' =? f) then v else a_fids a c' f') (a_neg a).
@@ -130,16 +134,19 @@ Definition clunk_incomplete (a : astate) (c : N) (m : tmsg) : bool :=
 Definition spec_step (a : astate) (c : N) (m : tmsg) (o : boutcome) (fence : N -> N -> bool) : astate * option N :=
   match spec_reject a c m with
   | Some e =>
-      (match m, a_fids a c (fid1_of m) with
-       | Tremove f, Some _ => bind_fid a c f None      (* "remove is a clunk with a side effect" *)
-       | _, _ => a
-       end, Some e)
+      match m, a_fids a c (fid1_of m) with
+      | Tremove f, Some _ =>           (* "remove is a clunk with a side effect": unbinds; releasing the File may panic *)
+          (bind_fid a c f None, match o with BPanicLate _ _ _ => Some linux_EFAULT | _ => Some e end)
+      | _, _ => (a, Some e)
+      end
   | None =>
       match o with
       | BFail e => (apply_fence fence (post_fail a c m), Some e)
       | BOk k fz n =>
           (apply_fence fence (post_ok a c m k fz n),
            if clunk_incomplete a c m then Some linux_EINVAL else None)
+      | BPanicEarly => (apply_fence fence a, Some linux_EFAULT)
+      | BPanicLate k fz n => (apply_fence fence (post_ok a c m k fz n), Some linux_EFAULT)
       end
   end.
 
